@@ -31,8 +31,8 @@ def _is_time_extent_def(d, first_param: str) -> bool:
         return True
     if d.kind == "unpack" and isinstance(v, ast.Tuple) and d.slot and len(d.slot) == 1 and d.slot[0] < len(v.elts):
         v = v.elts[d.slot[0]]
-    if isinstance(v, ast.Call) and isinstance(v.func, ast.Attribute) and v.func.attr == "size" and v.args \
-            and isinstance(v.args[0], ast.Constant) and v.args[0].value == 1 and u(v.func.value) == first_param:
+    from sa.astutil import extent_of as _eo
+    if _eo(v) == (first_param, 1):
         return True
     if isinstance(v, ast.Subscript) and u(v.value) == f"{first_param}.shape" and isinstance(v.slice, ast.Constant) \
             and v.slice.value == 1:
